@@ -338,6 +338,29 @@ func c12Corpus(c *Check) []CorpusProg {
 		CorpusProg{"lexeme/multiline-in-call", "print(\"a\nb\", `c\nd`, \"e\")\nx := []string{\"p\nq\", `r\ns`}\nprint(len(x[0]), len(x[1]))\n"},
 		CorpusProg{"lexeme/multiline-in-function", "func f(a string) string {\n\treturn a + \"\n\tindented\n\"\n}\nprint(f(\"s\n\"))\n"},
 	)
+	// one statement broken over two lines at each gap between its tokens (after an opening bracket, after a comma,
+	// after an operator, before a closing bracket ...). Most of these layouts are not part of the language; whether
+	// one is or not, blank lines, comment lines, CRLF and indentation at that line break must not change the answer.
+	stmts := []string{
+		"y := []int{1, 2, 3}", "t := []string{\"a\", \"b\"}", "print(1, \"a\", x)", "y := (x + 2) * 3", "z := s[0]", "w := \"abc\"[1:2]", "x, v = 2, x",
+		"a, b, c := @echo(\"hi\", \"x\") | @cat()", "write(\"f\", \"d\", true)", "var y, z int = 1, 2", "y := two()", "y := x == 1 && true || false",
+		"func g(a int, b string) (int, string) {\n\treturn a, b\n}", "for i := 0; i < 2; i++ {\n}", "if x == 1 && true {\n}", "for i, e := range s {\n}", "switch x {\ncase 1, 2:\n}",
+	}
+	for si, st := range stmts {
+		toks, err := RefLex(st + "\n")
+		if err != nil {
+			continue
+		}
+		sig := Significant(toks)
+		for gi := 1; gi < len(sig); gi++ {
+			if sig[gi].Kind == REOF || sig[gi].Kind == RNewline || sig[gi-1].Kind == RNewline {
+				continue
+			}
+			cut := sig[gi].Start
+			text := strings.TrimRight(st[:cut], " ") + "\n\t" + st[cut:]
+			progs = append(progs, CorpusProg{fmt.Sprintf("broken-line/%d/%d", si, gi), "x := 1\nv := 0\ns := []string{\"a\"}\nfunc two() int {\n\treturn 2\n}\n" + text + "\nprint(x)\n"})
+		}
+	}
 	return progs
 }
 
